@@ -753,6 +753,9 @@ class CSSStyleSheet(cssutils.stylesheets.StyleSheet):
                         ):
                             index = i  # before these
                             break
+                    else:
+                        # none of these: at the end, `index` is ignored
+                        index = len(self._cssRules)
             else:
                 # after @charset and @import
                 for r in self._cssRules[index:]:
@@ -812,6 +815,9 @@ class CSSStyleSheet(cssutils.stylesheets.StyleSheet):
                         ):
                             index = i  # before these
                             break
+                    else:
+                        # none of these: at the end, `index` is ignored
+                        index = len(self._cssRules)
             else:
                 # after @charset @import @namespace
                 for r in self._cssRules[index:]:
